@@ -91,6 +91,8 @@ class Ref:
         self.clk = None
         self.train = train_seqs
         self.uid = 0
+        self.last_calls = []
+        self.traced = False      # set by judge_line when the harness ran with WORLD_TRACE=1
         self.events = []         # C03 bookkeeping: (uid, 'accepted'|'emitted'|'stale'|'cleared', info)
 
     # ------------------------------------------------------------------ control
@@ -235,6 +237,7 @@ class Ref:
     def tick(self):
         """expected datagrams of one tick: list of expectation dicts; [] when the clock is stopped"""
         exp = []
+        self.last_calls = []
         if not self.clk_run:
             return exp, 0
         fn = self.clk
@@ -259,6 +262,7 @@ class Ref:
                 for k, y in enumerate(self.t):
                     if k == j or not y.running or y.rxf(bfn) != txf:
                         continue
+                    self.last_calls.append((k, j, bfn))
                     sup = x.muted or y.muted
                     if not sup and y.drop_n > 0 and bfn % y.drop_p == 0:
                         y.drop_n -= 1
@@ -301,14 +305,20 @@ class Ref:
 
 # ---------------------------------------------------------------------------- observation parsing
 
+CALLS_SEEN = []     # (dst, src, fn) routing decisions of the op parsed last (WORLD_TRACE=1)
+
+
 def parse_obs(obs):
     """one op's observation string -> (datagrams [(lport, raddr, rport, bytes)], stale, exc)"""
     dg, stale, exc = [], 0, None
+    CALLS_SEEN.clear()
     if obs.strip() == ".":
         return dg, stale, exc
     for item in obs.strip().split(","):
         if item.startswith("stale:"):
             stale = int(item[6:])
+        elif item.startswith("call:"):
+            CALLS_SEEN.append(tuple(int(v) for v in item.split(":")[1:]))
         elif item.startswith("EXC:"):
             exc = item[4:]
         else:
@@ -358,7 +368,7 @@ def stat(k, n=1):
     STATS[k] = STATS.get(k, 0) + n
 
 
-def judge_line(line, answer, train_seqs, props):
+def judge_line(line, answer, train_seqs, props, traced=False):
     """compare the real code's answer for a clean history with the reference.
     returns list of discrepancy dicts {prop, op_index, op, what, expected, observed}"""
     out = []
@@ -369,6 +379,7 @@ def judge_line(line, answer, train_seqs, props):
         return out
     try:
         ref = Ref(extra, train_seqs)
+        ref.traced = traced
     except NotClean:
         return out
     parts = answer.split(" | ")
@@ -490,17 +501,29 @@ def _judge_tick(ref, i, exp, est, dg, stale, bad):
         bad("C12", i, "clock indications", want, sorted(got_inds))
     bursts = [d for d in dg if not d[3].startswith(b"IND ")]
     exb = [e for e in exp if e["kind"] == "burst"]
+    # C02 / C03 on the routing decisions themselves (one handle call per due burst and recipient)
+    calls = sorted(CALLS_SEEN)
+    want_calls = sorted(ref.last_calls)
+    traced = ref.traced
+    if traced and calls != want_calls:
+        extra = [c for c in calls if c not in want_calls]
+        missing = [c for c in want_calls if c not in calls]
+        bad("C02", i, "routing decisions (dst, src, fn) differ from: running other transceivers whose Rx frequency in FN equals the sender's Tx frequency",
+            {"missing": missing[:4], "unexpected": extra[:4]}, calls[:8])
+        if missing:
+            bad("C03", i, "due burst not put on the air towards a tuned running peer", missing[:4], calls[:8])
+        if any(calls.count(c) > want_calls.count(c) >= 1 for c in set(calls)):
+            bad("C03", i, "burst transmitted more than once / not in its frame", want_calls[:8], calls[:8])
     used = [False] * len(bursts)
     for e in exb:
         cand = [n for n, d in enumerate(bursts) if not used[n] and (d[0], d[1], d[2]) == (e["lport"], e["raddr"], e["rport"])
                 and (parse_rx(d[3]) or {}).get("fn") == e["fn"] and (parse_rx(d[3]) or {}).get("tn") == e["tn"]]
         if not cand:
             if not e.get("optional"):
-                p = "C18" if e["nope"] else "C02"
+                # routed (see calls) but nothing arrived: metadata out of range / encoding refused
+                p = "C18" if e["nope"] else ("C10" if traced else "C02")
                 bad(p, i, "expected datagram missing (src trx %d -> dst trx %d)" % (e["src"], e["dst"]),
-                    {k: e[k] for k in ("lport", "fn", "tn", "nope")}, None)
-                if p == "C02":
-                    bad("C03", i, "due burst not transmitted to a tuned running peer", e["fn"], None)
+                    {k: e[k] for k in ("lport", "fn", "tn", "nope", "rssi", "toa")}, None)
             continue
         n = cand[0]
         used[n] = True
@@ -540,5 +563,9 @@ def _judge_tick(ref, i, exp, est, dg, stale, bad):
     for n, d in enumerate(bursts):
         if not used[n]:
             m = parse_rx(d[3]) or {}
-            bad("C02", i, "datagram delivered to a transceiver that must not receive it (or a duplicate)",
+            if traced:
+                dst = [k for k, y in enumerate(ref.t) if (y.data, y.addr) == (d[0], d[1])]
+                if dst and any(c[0] == dst[0] and c not in want_calls for c in calls):
+                    continue     # consequence of a wrong routing decision, already reported under C02
+            bad("C10" if traced else "C02", i, "datagram delivered that the routing decisions do not account for (or a duplicate)",
                 None, {"lport": d[0], "fn": m.get("fn"), "tn": m.get("tn"), "nope": m.get("nope")})
